@@ -72,6 +72,11 @@ def gen_files(r, txn, variants=()):
         f = GR.gen_rules_file(r, txn, n=r.choice([1, 2, 3, 4]), dup_names=r.random() < 0.3)
         if variants and r.random() < 0.7:
             f = RC.with_discriminators(f, txn, list(variants), r)
+        if r.random() < 0.5:
+            # a rule that asks a supplemental source: its answer depends on the rows handed in WITH THIS classification only
+            f['rules'] = [{'name': 'Ordered', 'match': r.choice(['any(r.item == "Book" for r in orders)', 'len(orders) > 0',
+                                                                 'len([r for r in orders if r.amount > 10]) >= 1']),
+                           'category': 'BySource', 'subcategory': 'O', 'tags': ['{len(orders)}']}] + f['rules']
         words = [w for w in txn['description'].upper().split() if w.isalnum()]
         if words and r.random() < 0.6:
             # two rules true of the base line on which the two rule modes disagree (file order vs specificity)
@@ -135,8 +140,11 @@ def gen_sequence(r, n_ops):
             pair = r.choice(dyn)
     names = sorted(files)
 
+    SOURCES = [None, None, {}, {'orders': [{'item': 'Book', 'amount': 12.5}]}, {'orders': [{'item': 'Pen', 'amount': 1.0}, {'item': 'Ink', 'amount': 30.0}]},
+               {'orders': []}]
+
     def classify(t):
-        return {'k': 'classify', 'txn': t}
+        return {'k': 'classify', 'txn': t, 'sources': r.choice(SOURCES)}
 
     def evaluate():
         e = r.choice(pair) if r.random() < 0.7 else r.choice(r.choice(COLLIDE))
@@ -202,6 +210,44 @@ def cache_invariant_failures():
         if rx.pattern != key or not (rx.flags & re.IGNORECASE):
             fails.append({'class': 'cached-regex-differs-from-its-source', 'key': key, 'cached': rx.pattern, 'flags': rx.flags})
             break
+    return fails
+
+
+def frame_failures(r, n):
+    """MerchantEngine.match, evaluate_transaction and apply_transforms on the CALLER's dict: afterwards it is the dict it was
+    (same keys, same values, same types) except for what the file's own transforms assign. The date may be a date or — as the
+    statement parser produces it — a datetime."""
+    import datetime
+    from tally import merchant_engine as ME, merchant_utils as MU, expr_parser as EP
+    fails = []
+    for i in range(n):
+        txn = GR.gen_txn(r)
+        f = GR.gen_rules_file(r, txn, n=r.choice([1, 2, 3]))
+        t = RC.txn_for_engine(txn)
+        if t.get('date') and i % 2 == 0:
+            d = t['date']
+            t['date'] = datetime.datetime(d.year, d.month, d.day, r.choice([0, 13]), r.choice([0, 45]))
+        try:
+            eng = ME.parse_merchants(GR.render_rules(f), r.choice(['first_match', 'most_specific']))
+        except ME.MerchantParseError:
+            continue
+        for what, call in (('MerchantEngine.match', lambda x: eng.match(x)),
+                           ('evaluate_transaction', lambda x: EP.evaluate_transaction(r.choice(['date >= "2024-06-01"', 'month + year', 'contains("UBER")']), x)),
+                           ('apply_transforms', lambda x: MU.apply_transforms(x, eng.transforms))):
+            x = copy.deepcopy(t)
+            before = {k: (type(v).__name__, copy.deepcopy(v)) for k, v in x.items()}
+            try:
+                call(x)
+            except Exception:       # noqa  (what the call answers is not this clause's business)
+                pass
+            assigned = {fp[6:] for fp, _ in eng.transforms} if what == 'apply_transforms' else set()
+            after = {k: (type(v).__name__, v) for k, v in x.items() if not k.startswith('_raw_')}
+            changed = [k for k in set(before) | set(after) if before.get(k) != after.get(k) and k not in assigned and not (k == 'field' and assigned)]
+            if changed:
+                fails.append({'class': 'transaction-altered-by-' + what.split('.')[-1], 'rules': GR.render_rules(f),
+                              'txn': {k: (v.isoformat() if hasattr(v, 'isoformat') else v) for k, v in t.items()}, 'date_is_datetime': isinstance(t.get('date'), datetime.datetime),
+                              'altered': {k: [str(before.get(k)), str(after.get(k))] for k in changed}})
+                return fails
     return fails
 
 
@@ -277,6 +323,24 @@ def run(ctx):
             ce = json.loads(common.read(ctx.replay)).get('counterexample', {})
             if 'ops' in ce:
                 seqs = [ce['ops']]
+            elif str(ce.get('class', '')).startswith('transaction-altered-by-'):
+                import datetime
+                from tally import merchant_engine as ME, merchant_utils as MU, expr_parser as EP
+                t = dict(ce['txn'])
+                if t.get('date'):
+                    t['date'] = datetime.datetime.fromisoformat(t['date']) if ce.get('date_is_datetime') else datetime.date.fromisoformat(t['date'][:10])
+                eng = ME.parse_merchants(ce['rules'])
+                for call in (lambda x: eng.match(x), lambda x: EP.evaluate_transaction('date >= "2024-06-01"', x), lambda x: MU.apply_transforms(x, eng.transforms)):
+                    x = copy.deepcopy(t)
+                    before = {k: (type(v).__name__, copy.deepcopy(v)) for k, v in x.items()}
+                    try:
+                        call(x)
+                    except Exception:      # noqa
+                        pass
+                    assigned = {fp[6:] for fp, _ in eng.transforms}
+                    if any(before.get(k) != (type(v).__name__, v) for k, v in x.items() if not k.startswith('_raw_') and k not in assigned and k != 'field'):
+                        prop_fail.append(dict(ce))
+                        break
             elif 'sequence' in ce and 'file' in ce:
                 from tally import merchant_engine as ME
                 text = GR.render_rules(ce['file'])
@@ -339,6 +403,7 @@ def run(ctx):
                 pass
             nbatch += 1
         prop_fail.extend(cache_invariant_failures())
+        prop_fail.extend(frame_failures(r, 80 if ctx.quick else 3000))
     ctx.notes['engine_level_runs_of_near_duplicates'] = nbatch
     ctx.obligation('correspondence:cache state machine (which load an answer comes from) model-vs-implementation', 'correspondence',
                    not corr_fail, cases=len(seqs), error=json.dumps(corr_fail[0], default=str)[:1500] if corr_fail else None)
@@ -351,7 +416,8 @@ def run(ctx):
                        'process; every classify / evaluate answer compared with a child forked from a pristine interpreter that replayed only '
                        'the last load; deep-copy frame checks; after every history the process-wide expression / regex caches are compared with a fresh '
                        'parse / compile of their keys; one MerchantEngine over runs of near-duplicate lines vs freshly parsed engines. Non-trivial = at least two different files loaded and a classification in the sequence')
-    ctx.sample({'ops': [{k: (v if k != 'text' else v[:60]) for k, v in o.items()} for o in seqs[0]]})
+    if seqs:
+        ctx.sample({'ops': [{k: (v if k != 'text' else v[:60]) for k, v in o.items()} for o in seqs[0]]})
     if len(seqs) > 2:
         ctx.sample({'ops': [{k: (v if k != 'text' else v[:60]) for k, v in o.items()} for o in seqs[2][:5]]})
 
